@@ -228,7 +228,23 @@ impl<'a, 'tcx> Cx<'a, 'tcx> {
                 ("uop", J::s(format!("{:?}", uop))),
                 ("op", self.operand(op)),
             ]),
-            Rvalue::Discriminant(p) => J::Obj(vec![("k", J::s("discr")), ("pl", self.place(p))]),
+            Rvalue::Discriminant(p) => {
+                let mut o = vec![("k", J::s("discr")), ("pl", self.place(p))];
+                let pty = p.ty(&self.body.local_decls, self.tcx).ty;
+                if let ty::Adt(adt, _) = pty.kind() {
+                    if adt.is_enum() {
+                        o.push(("enum", J::s(path_str(self.tcx, adt.did()))));
+                        let vars: Vec<J> = adt
+                            .discriminants(self.tcx)
+                            .map(|(idx, d)| {
+                                J::Arr(vec![J::n(d.val), J::s(adt.variant(idx).name.to_string())])
+                            })
+                            .collect();
+                        o.push(("vars", J::Arr(vars)));
+                    }
+                }
+                J::Obj(o)
+            }
             Rvalue::Aggregate(box kind, fields) => {
                 let mut o = vec![("k", J::s("agg"))];
                 match kind {
